@@ -244,15 +244,45 @@ pub struct DStats {
     pub harness_errors: Vec<String>,
 }
 
+type Prefetched = (u64, std::thread::JoinHandle<(Result<Vec<(usize, String, String)>, String>, DStats)>);
+
+impl DStats {
+    fn merge(&mut self, o: DStats) {
+        self.compared += o.compared;
+        self.nontrivial.extend(o.nontrivial);
+        for (k, v) in o.classes {
+            *self.classes.entry(k).or_insert(0) += v;
+        }
+        self.refused_by_dora.extend(o.refused_by_dora);
+        for (k, v) in o.not_comparable {
+            *self.not_comparable.entry(k).or_insert(0) += v;
+        }
+        self.methods_compared.extend(o.methods_compared);
+        self.harness_errors.extend(o.harness_errors);
+    }
+}
+
 pub struct DoraAsm {
     pub stats: Mutex<DStats>,
     pub known_keys: Vec<String>,
+    /// the big deterministic batch is compiled and run on a thread of its own while the other
+    /// sub-checks use the cores (`dora compile` is single-threaded)
+    prefetched: Mutex<Option<Prefetched>>,
 }
 
 impl DoraAsm {
     pub fn new() -> DoraAsm {
         let known_keys = load_known_findings().into_iter().filter(|k| k.property == "C08" && k.status == "open").map(|k| k.key).collect();
-        DoraAsm { stats: Mutex::new(DStats::default()), known_keys }
+        DoraAsm { stats: Mutex::new(DStats::default()), known_keys, prefetched: Mutex::new(None) }
+    }
+    pub fn prefetch(&self, insts: Vec<Inst>) {
+        let h = hash64(&insts);
+        let handle = std::thread::spawn(move || {
+            let mut st = DStats::default();
+            let r = eval_dora(&insts, &mut st);
+            (r, st)
+        });
+        *self.prefetched.lock().unwrap() = Some((h, handle));
     }
     fn is_known(&self, key: &str) -> bool {
         self.known_keys.iter().any(|k| match k.strip_suffix('*') {
@@ -387,8 +417,22 @@ impl Prop for DoraAsm {
     }
     fn eval(&self, case: &Batch) -> Outcome {
         let h = hash64(&case.insts);
+        let pre = {
+            let mut p = self.prefetched.lock().unwrap();
+            if p.as_ref().map(|(ph, _)| *ph == h).unwrap_or(false) { p.take() } else { None }
+        };
         let mut st = self.stats.lock().unwrap();
-        match eval_dora(&case.insts, &mut st) {
+        let result = match pre {
+            Some((_, handle)) => match handle.join() {
+                Ok((r, pst)) => {
+                    st.merge(pst);
+                    r
+                }
+                Err(_) => Err("the Dora assembler thread panicked".to_string()),
+            },
+            None => eval_dora(&case.insts, &mut st),
+        };
+        match result {
             Err(e) => {
                 st.harness_errors.push(e.clone());
                 Outcome { inconclusive: Some(e), hash: h, ..Default::default() }
